@@ -834,6 +834,72 @@ fn count_of(stdout: &[u8]) -> Option<i64> {
     }
 }
 
+/// how the printed lines fail to be the selected input lines
+enum Mis {
+    /// input line `line` is selected under either reading of its terminator, so it has to be printed
+    /// at output position `pos` (the furthest position any reading of the terminator-dependent lines
+    /// before it allows), and what is printed there is something else
+    Missing { line: usize, pos: usize },
+    /// the output line at `pos` is explained by no input line
+    Extra { pos: usize },
+}
+
+struct Aligned {
+    mismatch: Option<Mis>,
+    /// indices of the input lines selected whichever way the terminator is read
+    strict: Vec<usize>,
+    /// number of selected lines if every terminator-dependent line is left out / counted
+    lo: i64,
+    hi: i64,
+    ambiguous: usize,
+}
+
+/// The reference selection (`sem` on each decoded line) against the printed lines `got`, byte for
+/// byte and in input order.
+/// A trailing blank of a quoted keyword can be satisfied by the line terminator itself; the
+/// property does not say whether the terminator belongs to the line: accept either reading
+/// for such a line (counted), demand the common answer everywhere else.
+/// The output must be explained by SOME reading of the terminator-dependent lines: the set of
+/// output positions reachable after each input line (a greedy match is wrong when such a line
+/// shows the same text as a later line that must be printed).
+fn align_selection(tree: &C, lines: &[String], got: &[&[u8]]) -> Aligned {
+    let mut out = Aligned { mismatch: None, strict: vec![], lo: 0, hi: 0, ambiguous: 0 };
+    let mut reach: std::collections::BTreeSet<usize> = std::collections::BTreeSet::new();
+    reach.insert(0);
+    for (li, l) in lines.iter().enumerate() {
+        let with = sem(tree, l);
+        let without = sem(tree, strip_terminator(l));
+        let shown = l.trim_end().as_bytes();
+        let step = |set: &std::collections::BTreeSet<usize>| -> std::collections::BTreeSet<usize> { set.iter().filter(|g| got.get(**g) == Some(&shown)).map(|g| g + 1).collect() };
+        if with == without {
+            if with {
+                out.strict.push(li);
+                out.lo += 1;
+                out.hi += 1;
+                if out.mismatch.is_none() {
+                    let next = step(&reach);
+                    if next.is_empty() {
+                        out.mismatch = Some(Mis::Missing { line: li, pos: *reach.iter().next_back().unwrap_or(&0) });
+                    } else {
+                        reach = next;
+                    }
+                }
+            }
+        } else {
+            out.ambiguous += 1;
+            out.hi += 1;
+            if out.mismatch.is_none() {
+                let next = step(&reach);
+                reach.extend(next);
+            }
+        }
+    }
+    if out.mismatch.is_none() && !reach.contains(&got.len()) {
+        out.mismatch = Some(Mis::Extra { pos: *reach.iter().next_back().unwrap_or(&0) });
+    }
+    out
+}
+
 /// the P-level part shared by filter-e2e and filter-chain: `tree` is the tree the expectation is
 /// computed from
 fn selection_checks(ctx: &mut Ctx, ps: &mut Passes, fam_prefix: &str, query: &str, inp: &Input, tree: &C, legacy: &imp::ImplRun, count_stdout: Option<&[u8]>) {
@@ -866,55 +932,16 @@ fn selection_checks(ctx: &mut Ctx, ps: &mut Passes, fam_prefix: &str, query: &st
             }
         }
     };
-    // A trailing blank of a quoted keyword can be satisfied by the line terminator itself; the
-    // property does not say whether the terminator belongs to the line: accept either reading
-    // for such a line (counted), demand the common answer everywhere else.
-    // The output must be explained by SOME reading of the terminator-dependent lines: the set of
-    // output positions reachable after each input line (a greedy match is wrong when such a line
-    // shows the same text as a later line that must be printed).
-    let mut ambiguous = 0usize;
-    let mut expected_strict: Vec<String> = vec![];
-    let mut mismatch: Option<String> = None;
-    let mut sel_lo = 0i64; // selected lines if every ambiguous line is left out
-    let mut sel_hi = 0i64;
-    let mut reach: std::collections::BTreeSet<usize> = std::collections::BTreeSet::new();
-    reach.insert(0);
-    for l in inp.lines.iter() {
-        let with = sem(tree, l);
-        let without = sem(tree, strip_terminator(l));
-        let shown = l.trim_end().to_string();
-        let step = |set: &std::collections::BTreeSet<usize>| -> std::collections::BTreeSet<usize> {
-            set.iter().filter(|g| got.get(**g) == Some(&shown.as_str())).map(|g| g + 1).collect()
-        };
-        if with == without {
-            if with {
-                expected_strict.push(shown.clone());
-                sel_lo += 1;
-                sel_hi += 1;
-                if mismatch.is_none() {
-                    let next = step(&reach);
-                    if next.is_empty() {
-                        let gi = *reach.iter().next_back().unwrap_or(&0);
-                        mismatch = Some(format!("line {:?} should have been printed (output position {} under every reading of the terminator-dependent lines before it), got {:?}", shown, gi, got.get(gi)));
-                    } else {
-                        reach = next;
-                    }
-                }
-            }
-        } else {
-            ambiguous += 1;
-            sel_hi += 1;
-            if mismatch.is_none() {
-                let next = step(&reach);
-                reach.extend(next);
-            }
-        }
-    }
+    let gotb: Vec<&[u8]> = got.iter().map(|g| g.as_bytes()).collect();
+    let al = align_selection(tree, &inp.lines, &gotb);
+    let (ambiguous, sel_lo, sel_hi) = (al.ambiguous, al.lo, al.hi);
+    let expected_strict: Vec<String> = al.strict.iter().map(|i| inp.lines[*i].trim_end().to_string()).collect();
+    let mismatch: Option<String> = match al.mismatch {
+        None => None,
+        Some(Mis::Missing { line, pos }) => Some(format!("line {:?} should have been printed (output position {} under every reading of the terminator-dependent lines before it), got {:?}", inp.lines[line].trim_end(), pos, got.get(pos))),
+        Some(Mis::Extra { pos }) => Some(format!("unexpected extra output line {:?} at position {}", got.get(pos), pos)),
+    };
     let selected = got.len() as i64;
-    if mismatch.is_none() && !reach.contains(&got.len()) {
-        let gi = *reach.iter().next_back().unwrap_or(&0);
-        mismatch = Some(format!("unexpected extra output line {:?} at position {}", got.get(gi), gi));
-    }
     if ambiguous > 0 {
         ctx.count("filter:line-terminator-dependent-case");
     }
@@ -1141,6 +1168,835 @@ fn badutf8_cases(ctx: &mut Ctx, ps: &mut Passes) {
     }
 }
 
+/* ------------------------------------------------------------------------------------------ */
+/* (e): the real binary on inputs larger than its read buffer                                  */
+/* ------------------------------------------------------------------------------------------ */
+//
+// filter-big-input-sel    `agrind --file P -- '<filter>'` prints exactly the selected lines of P, byte for
+//                         byte and in input order                      C02/selected-lines-differ
+// filter-big-input-stdin  `agrind -- '<filter>' < P` prints the same bytes as `--file P`
+//                                                                       C02/file-differs-from-stdin
+// filter-big-input-count  `<filter> | count` = number of selected lines C02/count-differs
+//
+// "Which lines are selected" must not depend on where a line sits in the input stream.  The binary
+// reads through an 8 KiB buffer, so the inputs here are 9 KB .. 200 KB (thorough: up to 2 MB) regular
+// files whose lines are built from the keyword material of the other families plus 2-, 3- and
+// 4-byte characters, with lines longer than the buffer (and longer than 64 KiB), and with chosen
+// things padded onto a multiple of 8192: a multi-byte character cut after each of its bytes, a
+// keyword occurrence, the gap a wildcard spans, an invalid byte sequence, the line terminator, a
+// CR LF pair, the first byte of a line, the end of the file.  The oracle never looks at buffers: the
+// lines are the `\n`-terminated pieces of the file, each decoded lossily as a whole, judged by `sem`.
+
+const READ_BUF: usize = 8192;
+/// 2-, 3- and 4-byte characters; the last two are white space (a blank of a keyword matches them,
+/// and they are trimmed from the end of a printed line)
+const MB: &[char] = &['é', 'ß', 'λ', '→', '€', '語', '😀', '→', '語', '\u{00A0}', '\u{2003}'];
+const MB_KW: &[char] = &['é', 'ß', 'λ', '→', '€', '語', '😀'];
+/// Cased letters outside ASCII that `sem` does judge here: their other-case forms (É, ẞ, Λ) occur
+/// neither in the keywords nor in the lines of this family, so "case-insensitively" asks nothing of
+/// them beyond matching themselves.  Any other cased non-ASCII letter is kept out by the generator.
+const CASED_OK: &[char] = &['é', 'ß', 'λ'];
+/// filler no generated keyword starts a piece with (keeps the reference matcher linear on long lines)
+const FILL_ASCII: &[char] = &['z', 'q', 'j', 'w', 'm', '7', '5', ',', ';', '=', '!'];
+
+fn outside_oracle(s: &str) -> bool {
+    s.chars().any(|c| kwgen::nonascii_cased(c) && !CASED_OK.contains(&c))
+}
+
+/// a quoted keyword with at least one multi-byte character
+fn mb_keyword(r: &mut Rng) -> T {
+    let text = if r.chance(25) {
+        (*r.pick(&["café", "straße", "λx", "→", "€ 5", "語", "😀", "é", "a→b", "ß*", "x 😀", "語€"])).to_string()
+    } else {
+        let n = 1 + r.below(4);
+        let at = r.below(n);
+        let mut s = String::new();
+        for i in 0..n {
+            if i == at || r.chance(35) {
+                s.push(*r.pick(MB_KW));
+            } else if r.chance(12) {
+                s.push(' ');
+            } else if r.chance(8) {
+                s.push('*'); // literal inside quotes
+            } else {
+                s.push(*r.pick(kwgen::ALNUM));
+            }
+        }
+        s
+    };
+    let src = kwgen::quote_any(r, &text);
+    T::Kw { kind: Kind::Exact, text, src }
+}
+
+fn plant_mb(r: &mut Rng, t: &mut T, pct: usize) {
+    match t {
+        T::Kw { .. } => {
+            if r.chance(pct) {
+                *t = mb_keyword(r);
+            }
+        }
+        T::And(v) | T::Or(v) => v.iter_mut().for_each(|x| plant_mb(r, x, pct)),
+        T::Not(x) => plant_mb(r, x, pct),
+    }
+}
+
+/// a filter in documented form from the tree generator of filter-e2e, some of its keywords replaced
+/// by quoted non-ASCII ones, restricted to what `sem` judges
+fn gen_big_filter(r: &mut Rng) -> (T, String) {
+    for _ in 0..200 {
+        if r.chance(4) {
+            return (T::Kw { kind: Kind::Wild, text: "*".into(), src: "*".into() }, "*".to_string());
+        }
+        let star_ok = r.chance(10);
+        let loose = r.chance(35);
+        let depth = r.below(4);
+        let mut base = gen_tree(r, depth, star_ok);
+        plant_mb(r, &mut base, 25);
+        let t = match r.below(12) {
+            0 => mb_keyword(r),
+            1 => T::Not(Box::new(mb_keyword(r))),
+            2 => T::And(vec![mb_keyword(r), base]),
+            3 => T::Or(vec![T::Not(Box::new(mb_keyword(r))), base]),
+            4 => T::And(vec![base, T::Not(Box::new(mb_keyword(r)))]),
+            5 => T::Or(vec![base, mb_keyword(r)]),
+            _ => base,
+        };
+        let mut kws = vec![];
+        c_keywords(&canon_t(&t), &mut kws);
+        if kws.iter().any(|k| outside_oracle(&k.1)) {
+            continue;
+        }
+        let q = match &t {
+            // juxtaposition at the top level
+            T::And(v) if r.chance(40) => v.iter().map(|x| render(r, x, 2, loose)).collect::<Vec<_>>().join(sp(r)),
+            _ => {
+                let need = if loose || r.chance(50) { 0 } else { 2 };
+                render(r, &t, need, loose)
+            }
+        };
+        return (t, q);
+    }
+    (T::Kw { kind: Kind::Wild, text: "*".into(), src: "*".into() }, "*".to_string())
+}
+
+/// exactly `n` bytes of filler: ASCII that starts no keyword piece, mixed with multi-byte characters
+fn fill(r: &mut Rng, n: usize, out: &mut Vec<u8>) {
+    let dens = *r.pick(&[0usize, 5, 25, 60, 100]);
+    let mut left = n;
+    let mut b = [0u8; 4];
+    while left > 0 {
+        if left >= 2 && r.chance(dens) {
+            let c = *r.pick(MB);
+            if c.len_utf8() <= left {
+                out.extend_from_slice(c.encode_utf8(&mut b).as_bytes());
+                left -= c.len_utf8();
+                continue;
+            }
+        }
+        out.push(*r.pick(FILL_ASCII) as u8);
+        left -= 1;
+    }
+}
+
+fn junk_mb(r: &mut Rng, max: usize) -> String {
+    let n = r.below(max + 1);
+    let mut s = String::new();
+    for _ in 0..n {
+        if r.chance(30) {
+            s.push(*r.pick(MB));
+        } else {
+            s.push_str(&kwgen::junk(r, 1));
+        }
+    }
+    s
+}
+
+#[derive(Clone, Copy, PartialEq, Debug)]
+enum Mk {
+    /// a multi-byte character
+    Mb,
+    /// an occurrence of a keyword piece
+    Piece,
+    /// the start of the gap between two pieces of a wildcard keyword
+    Gap,
+    /// an invalid byte sequence
+    Bad,
+}
+
+/// a line under construction (no terminator): its bytes and where the interesting things are
+struct Lb {
+    b: Vec<u8>,
+    /// (what, byte position, byte length)
+    marks: Vec<(Mk, usize, usize)>,
+}
+
+impl Lb {
+    fn new() -> Lb {
+        Lb { b: vec![], marks: vec![] }
+    }
+    /// append text; `bad_char` stand-ins become their byte sequences
+    fn txt(&mut self, s: &str) {
+        for c in s.chars() {
+            let at = self.b.len();
+            let i = (c as u32).wrapping_sub(0xE000) as usize;
+            if i < BAD_SEQS.len() {
+                self.b.extend_from_slice(BAD_SEQS[i]);
+                self.marks.push((Mk::Bad, at, BAD_SEQS[i].len()));
+            } else if c == '\n' {
+                self.b.push(b' ');
+            } else {
+                let mut buf = [0u8; 4];
+                let e = c.encode_utf8(&mut buf);
+                self.b.extend_from_slice(e.as_bytes());
+                if e.len() > 1 {
+                    self.marks.push((Mk::Mb, at, e.len()));
+                }
+            }
+        }
+    }
+    fn piece(&mut self, s: &str) {
+        let at = self.b.len();
+        self.txt(s);
+        if self.b.len() > at {
+            self.marks.push((Mk::Piece, at, self.b.len() - at));
+        }
+    }
+    fn gap(&mut self) {
+        self.marks.push((Mk::Gap, self.b.len(), 0));
+    }
+    /// insert bytes at `at` (one of `points()`, so never inside a character or a piece)
+    fn insert(&mut self, at: usize, bytes: &[u8]) {
+        let tail = self.b.split_off(at);
+        self.b.extend_from_slice(bytes);
+        self.b.extend(tail);
+        for m in self.marks.iter_mut() {
+            if m.1 > at || (m.1 == at && m.0 != Mk::Gap) {
+                m.1 += bytes.len();
+            }
+        }
+    }
+    /// where filler may go: the start, the gaps of wildcard keywords, the end
+    fn points(&self) -> Vec<usize> {
+        let mut v = vec![0];
+        v.extend(self.marks.iter().filter(|m| m.0 == Mk::Gap).map(|m| m.1));
+        v.push(self.b.len());
+        v
+    }
+    fn of(&self, k: Mk) -> Vec<(usize, usize)> {
+        self.marks.iter().filter(|m| m.0 == k).map(|m| (m.1, m.2)).collect()
+    }
+    /// `total` more bytes of filler in one to three places
+    fn inflate(&mut self, r: &mut Rng, total: usize) {
+        let parts = 1 + r.below(3);
+        let mut left = total;
+        for i in 0..parts {
+            let n = if i + 1 == parts { left } else { r.below(left + 1) };
+            left -= n;
+            let at = *r.pick(&self.points());
+            let mut f = vec![];
+            fill(r, n, &mut f);
+            self.insert(at, &f);
+        }
+    }
+}
+
+/// the body of one line: the line material of filter-e2e (keyword pieces in order, damaged, with
+/// junk and invalid bytes around and inside them) plus multi-byte characters
+fn material_line(r: &mut Rng, kws: &[(Kind, String)], bad_utf8: bool) -> Lb {
+    loop {
+        let l = material_line_once(r, kws, bad_utf8);
+        // (two invalid sequences side by side may spell a cased letter, `C3` + `80` = `À`, which the
+        // oracle does not judge)
+        if !outside_oracle(&String::from_utf8_lossy(&l.b)) {
+            return l;
+        }
+    }
+}
+
+fn material_line_once(r: &mut Rng, kws: &[(Kind, String)], bad_utf8: bool) -> Lb {
+    let mut l = Lb::new();
+    let bad_here = bad_utf8 && r.chance(50);
+    if r.chance(5) {
+        if r.chance(50) {
+            l.txt("  ");
+        }
+        return l;
+    }
+    if bad_here && r.chance(15) {
+        l.txt(&some_bad(r).to_string());
+    }
+    if r.chance(50) {
+        let j = junk_mb(r, 4);
+        l.txt(&j);
+    }
+    for (kind, text) in kws {
+        if l.b.len() > 160 {
+            break;
+        }
+        if !r.chance(55) {
+            continue;
+        }
+        let ps = kwgen::pieces(*kind, text);
+        let dmg = r.chance(18);
+        if bad_here && r.chance(20) {
+            l.txt(&some_bad(r).to_string());
+        }
+        for (j, p) in ps.iter().enumerate() {
+            if j > 0 {
+                l.gap();
+                if bad_here && r.chance(50) {
+                    if r.chance(40) {
+                        let j = junk_mb(r, 2);
+                        l.txt(&j);
+                    }
+                    l.txt(&some_bad(r).to_string());
+                    if r.chance(25) {
+                        l.txt(&some_bad(r).to_string());
+                    }
+                    if r.chance(40) {
+                        let j = junk_mb(r, 2);
+                        l.txt(&j);
+                    }
+                } else if r.chance(50) {
+                    let j = junk_mb(r, 3);
+                    l.txt(&j);
+                }
+            }
+            if dmg && j == 0 {
+                l.txt(&kwgen::damaged(r, p));
+            } else if bad_here && r.chance(6) && p.chars().count() > 1 {
+                // invalid bytes inside the piece: not an occurrence of it
+                let v: Vec<char> = kwgen::variant(r, p, false).chars().collect();
+                let at = 1 + r.below(v.len() - 1);
+                l.txt(&v[..at].iter().collect::<String>());
+                l.txt(&some_bad(r).to_string());
+                l.txt(&v[at..].iter().collect::<String>());
+            } else {
+                l.piece(&kwgen::variant(r, p, false));
+            }
+        }
+        if bad_here && r.chance(20) {
+            l.txt(&some_bad(r).to_string());
+        }
+        if r.chance(60) {
+            let j = junk_mb(r, 3);
+            l.txt(&j);
+        }
+    }
+    if bad_here && r.chance(15) {
+        l.txt(&some_bad(r).to_string());
+    }
+    l
+}
+
+/// a line one of whose bytes has to land on a multiple of the read buffer size
+struct Forced {
+    lb: Lb,
+    term: &'static str,
+    /// byte index (from the start of the line, terminator included) that is to be the first byte of a buffer
+    anchor: usize,
+    /// where the padding goes: into the line at this position (at or before `anchor`), or (None) into a
+    /// filler line of its own before this one
+    slot: Option<usize>,
+    what: &'static str,
+}
+
+fn forced_line(r: &mut Rng, kws: &[(Kind, String)], bad_utf8: bool, term: &'static str, last: bool) -> Forced {
+    loop {
+        let f = forced_line_once(r, kws, bad_utf8, term, last);
+        if !outside_oracle(&String::from_utf8_lossy(&f.lb.b)) {
+            return f;
+        }
+    }
+}
+
+fn forced_line_once(r: &mut Rng, kws: &[(Kind, String)], bad_utf8: bool, term: &'static str, last: bool) -> Forced {
+    let mut lb = material_line(r, kws, bad_utf8);
+    if r.chance(20) {
+        let n = match r.below(10) {
+            0..=5 => 100 + r.below(2900),
+            6..=8 => READ_BUF + 1 + r.below(12000),
+            _ => 30000 + r.below(20000),
+        };
+        lb.inflate(r, n);
+    }
+    let mut term = term;
+    let mut slot_none = false;
+    // a multi-byte character of the line (by preference inside a keyword occurrence), cut after its
+    // first, second or third byte
+    fn mb_feature(r: &mut Rng, lb: &mut Lb) -> (usize, &'static str) {
+        let mbs = lb.of(Mk::Mb);
+        let pieces = lb.of(Mk::Piece);
+        let inside: Vec<(usize, usize)> = mbs.iter().filter(|m| pieces.iter().any(|p| p.0 <= m.0 && m.0 < p.0 + p.1)).cloned().collect();
+        let (pos, len) = if !inside.is_empty() && r.chance(70) {
+            *r.pick(&inside)
+        } else if !mbs.is_empty() {
+            *r.pick(&mbs)
+        } else {
+            let at = *r.pick(&lb.points());
+            let c = *r.pick(MB_KW);
+            let mut b = [0u8; 4];
+            lb.insert(at, c.encode_utf8(&mut b).as_bytes());
+            lb.marks.push((Mk::Mb, at, c.len_utf8()));
+            (at, c.len_utf8())
+        };
+        (pos + 1 + r.below(len - 1), "multi-byte character cut by the boundary")
+    }
+    let has_gap = !lb.of(Mk::Gap).is_empty();
+    let (anchor, what): (usize, &'static str) = match if last {
+        8
+    } else if has_gap && r.chance(35) {
+        4
+    } else {
+        r.below(8)
+    } {
+        0 | 1 => mb_feature(r, &mut lb),
+        2 => {
+            let ps: Vec<(usize, usize)> = lb.of(Mk::Piece).into_iter().filter(|p| p.1 >= 2).collect();
+            if ps.is_empty() {
+                mb_feature(r, &mut lb)
+            } else {
+                let (pos, len) = *r.pick(&ps);
+                (pos + 1 + r.below(len - 1), "keyword occurrence across the boundary")
+            }
+        }
+        3 => {
+            let mut bads = lb.of(Mk::Bad);
+            if bads.is_empty() {
+                let at = *r.pick(&lb.points());
+                let seq: &[u8] = *r.pick(BAD_SEQS);
+                lb.insert(at, seq);
+                lb.marks.push((Mk::Bad, at, seq.len()));
+                bads.push((at, seq.len()));
+            }
+            let (pos, len) = *r.pick(&bads);
+            (pos + r.below(len + 1), "invalid byte sequence at / across the boundary")
+        }
+        4 => {
+            let gaps = lb.of(Mk::Gap);
+            if gaps.is_empty() {
+                mb_feature(r, &mut lb)
+            } else {
+                let (g, _) = *r.pick(&gaps);
+                let n = if r.chance(10) { READ_BUF + 1 + r.below(4000) } else { 2 + r.below(3000) };
+                let mut f = vec![];
+                fill(r, n, &mut f);
+                lb.insert(g, &f);
+                (g + r.below(n), "wildcard gap across the boundary")
+            }
+        }
+        5 => {
+            term = "\n";
+            // the newline is the first byte of a buffer / the last byte of one
+            if r.chance(50) {
+                (lb.b.len(), "newline first in a buffer")
+            } else {
+                (lb.b.len() + 1, "first byte of a line first in a buffer")
+            }
+        }
+        6 => {
+            term = "\r\n";
+            (lb.b.len() + r.below(3), "CR LF at / across the boundary")
+        }
+        7 => {
+            // the line starts with a multi-byte character or an invalid sequence that is cut (or that
+            // starts the buffer); the padding has to be a line of its own
+            slot_none = true;
+            let mut b = [0u8; 4];
+            let seq: Vec<u8> = if bad_utf8 && r.chance(40) { r.pick(BAD_SEQS).to_vec() } else { r.pick(MB).encode_utf8(&mut b).as_bytes().to_vec() };
+            lb.insert(0, &seq);
+            (r.below(seq.len()), "line starts with a multi-byte character / invalid sequence at the boundary")
+        }
+        _ => {
+            // the last line, without a terminator: the file ends on the boundary, one byte before or after it
+            term = "";
+            if lb.b.is_empty() {
+                lb.txt("end");
+            }
+            (lb.b.len() + r.below(2) - if lb.b.len() > 1 && r.chance(30) { 1 } else { 0 }, "end of file at the boundary")
+        }
+    };
+    let slot = if slot_none || r.chance(15) {
+        None
+    } else {
+        let c: Vec<usize> = lb.points().into_iter().filter(|p| *p <= anchor && *p <= lb.b.len()).collect();
+        Some(*r.pick(&c))
+    };
+    Forced { lb, term, anchor, slot, what }
+}
+
+struct BigInput {
+    bytes: Vec<u8>,
+    /// (what, file offset of the boundary it was put on)
+    forced: Vec<(&'static str, usize)>,
+}
+
+fn gen_big_input(r: &mut Rng, kws: &[(Kind, String)], target: usize, huge_max: usize) -> BigInput {
+    let bad_utf8 = r.chance(35);
+    let crlf_pct = *r.pick(&[0usize, 0, 8, 8, 50, 100]);
+    let mut out: Vec<u8> = Vec::with_capacity(target + 2 * READ_BUF);
+    let mut forced = vec![];
+    let mut want_huge = huge_max > 65537 && target >= 90_000 && r.chance(60);
+    fn pick_term(r: &mut Rng, crlf_pct: usize) -> &'static str {
+        if r.chance(crlf_pct) {
+            "\r\n"
+        } else {
+            "\n"
+        }
+    }
+    let push_forced = |r: &mut Rng, out: &mut Vec<u8>, forced: &mut Vec<(&'static str, usize)>, last: bool| {
+        let t = pick_term(r, crlf_pct);
+        let mut f = forced_line(r, kws, bad_utf8, t, last);
+        let anchor = f.anchor;
+        let need = |off: usize| (READ_BUF - (off + anchor) % READ_BUF) % READ_BUF;
+        // most of the way there with ordinary lines
+        if r.chance(70) {
+            loop {
+                let n = need(out.len());
+                if n < 40 {
+                    break;
+                }
+                let l = material_line(r, kws, bad_utf8);
+                let t = pick_term(r, crlf_pct);
+                if l.b.len() + t.len() > n {
+                    break;
+                }
+                out.extend_from_slice(&l.b);
+                out.extend_from_slice(t.as_bytes());
+            }
+        }
+        let n = need(out.len());
+        let mut pad = vec![];
+        match f.slot {
+            Some(at) => {
+                fill(r, n, &mut pad);
+                f.lb.insert(at, &pad);
+                forced.push((f.what, out.len() + f.anchor + n));
+            }
+            None => {
+                if n > 0 {
+                    fill(r, n - 1, &mut pad);
+                    // (filler characters are never white space at the end of the file's last byte: irrelevant)
+                    out.extend_from_slice(&pad);
+                    out.push(b'\n');
+                }
+                forced.push((f.what, out.len() + f.anchor));
+            }
+        }
+        out.extend_from_slice(&f.lb.b);
+        out.extend_from_slice(f.term.as_bytes());
+    };
+    while out.len() < target {
+        if r.chance(55) {
+            push_forced(r, &mut out, &mut forced, false);
+        } else {
+            for _ in 0..(1 + r.below(30)) {
+                let mut l = material_line(r, kws, bad_utf8);
+                match r.below(100) {
+                    0..=7 => {
+                        let n = 50 + r.below(1950);
+                        l.inflate(r, n)
+                    }
+                    8..=10 => {
+                        let n = READ_BUF + 1 + r.below(12000);
+                        l.inflate(r, n)
+                    }
+                    11..=13 if want_huge => {
+                        want_huge = false;
+                        let n = 65537 + r.below(huge_max - 65537);
+                        l.inflate(r, n)
+                    }
+                    _ => {}
+                }
+                if bad_utf8 && r.chance(12) {
+                    // anywhere, also in the middle of a multi-byte character
+                    let at = r.below(l.b.len() + 1);
+                    let junk: &[u8] = *r.pick(BAD_SEQS);
+                    let mut damaged = l.b[..at].to_vec();
+                    damaged.extend_from_slice(junk);
+                    damaged.extend_from_slice(&l.b[at..]);
+                    // (a lead byte put in front of a continuation byte may spell a cased letter such as `Â`,
+                    // which the oracle does not judge: leave such a line as it was)
+                    if !outside_oracle(&String::from_utf8_lossy(&damaged)) {
+                        l.b = damaged;
+                    }
+                }
+                out.extend_from_slice(&l.b);
+                out.extend_from_slice(pick_term(r, crlf_pct).as_bytes());
+            }
+        }
+    }
+    if want_huge {
+        let mut l = material_line(r, kws, bad_utf8);
+        let n = 65537 + r.below(huge_max - 65537);
+        l.inflate(r, n);
+        out.extend_from_slice(&l.b);
+        out.extend_from_slice(pick_term(r, crlf_pct).as_bytes());
+    }
+    // the end of the input: a final newline, none, or the end of the file put on a boundary
+    match r.below(10) {
+        0..=2 => push_forced(r, &mut out, &mut forced, true),
+        3..=5 => {
+            if out.last() == Some(&b'\n') {
+                out.pop();
+                if out.last() == Some(&b'\r') && r.chance(50) {
+                    out.pop();
+                }
+            }
+        }
+        _ => {}
+    }
+    BigInput { bytes: out, forced }
+}
+
+struct BinRun {
+    code: Option<i32>,
+    stdout: Vec<u8>,
+    stderr: Vec<u8>,
+    timed_out: bool,
+}
+
+/// run the binary with `args`, stdin from `stdin_path` (default /dev/null), killed by the watchdog
+/// when it has not finished after `secs`
+fn run_agrind_once(bin: &str, args: &[&str], stdin_path: Option<&str>, secs: u64) -> Option<BinRun> {
+    use std::io::Read;
+    use std::sync::atomic::Ordering;
+    let stdin = std::fs::File::open(stdin_path.unwrap_or("/dev/null")).ok()?;
+    let mut child = std::process::Command::new(bin)
+        .args(args)
+        .env("NO_COLOR", "1")
+        .env("RUST_BACKTRACE", "0")
+        .stdin(stdin)
+        .stdout(std::process::Stdio::piped())
+        .stderr(std::process::Stdio::piped())
+        .spawn()
+        .ok()?;
+    let (done, fired) = kill_after(child.id(), secs);
+    let so = child.stdout.take();
+    let se = child.stderr.take();
+    let rd = |p: Option<Box<dyn Read + Send>>| {
+        std::thread::spawn(move || {
+            let mut b = vec![];
+            if let Some(mut p) = p {
+                let _ = p.read_to_end(&mut b);
+            }
+            b
+        })
+    };
+    let h1 = rd(so.map(|x| Box::new(x) as Box<dyn Read + Send>));
+    let h2 = rd(se.map(|x| Box::new(x) as Box<dyn Read + Send>));
+    let code = child.wait().ok().and_then(|s| s.code());
+    done.store(true, Ordering::SeqCst);
+    let stdout = h1.join().unwrap_or_default();
+    let stderr = h2.join().unwrap_or_default();
+    Some(BinRun { code, stdout, stderr, timed_out: fired.load(Ordering::SeqCst) })
+}
+
+/// A run that normally takes well under a second gets 60 s, and another 180 s when that was not
+/// enough (a busy machine is not a finding; a run that does not end twice is).
+fn run_agrind(bin: &str, args: &[&str], stdin_path: Option<&str>) -> Option<BinRun> {
+    let r = run_agrind_once(bin, args, stdin_path, 60)?;
+    if r.timed_out {
+        return run_agrind_once(bin, args, stdin_path, 180);
+    }
+    Some(r)
+}
+
+fn lossy_clip(b: &[u8], around: usize) -> String {
+    let lo = around.saturating_sub(40);
+    let hi = (around + 40).min(b.len());
+    format!("{}{}{}", if lo > 0 { "…" } else { "" }, String::from_utf8_lossy(&b[lo..hi]), if hi < b.len() { "…" } else { "" })
+}
+
+/// where an input line lies in the file and what is wrong with the output line that stands for it
+fn line_report(bytes: &[u8], line: usize, got: Option<&&[u8]>) -> serde_json::Value {
+    let mut start = 0usize;
+    let mut cur: &[u8] = &[];
+    for (i, l) in bytes.split_inclusive(|b| *b == b'\n').enumerate() {
+        if i == line {
+            cur = l;
+            break;
+        }
+        start += l.len();
+    }
+    let end = start + cur.len();
+    let first_b = (start + READ_BUF - 1) / READ_BUF * READ_BUF;
+    let bounds: Vec<usize> = (0..4).map(|i| first_b + i * READ_BUF).filter(|b| *b < end).collect();
+    let decoded = String::from_utf8_lossy(cur).into_owned();
+    let shown = decoded.trim_end().as_bytes();
+    let mut o = json!({"input_line": line, "line_file_offset": start, "line_bytes": cur.len(), "multiples_of_8192_inside_the_line": bounds,
+        "bytes_around_them": bounds.iter().map(|b| enc::hexb(&bytes[b.saturating_sub(8)..(*b + 8).min(bytes.len())])).collect::<Vec<_>>()});
+    match got {
+        Some(g) => {
+            let d = shown.iter().zip(g.iter()).position(|(a, b)| a != b).unwrap_or(shown.len().min(g.len()));
+            o["first_difference_at_byte_of_the_line"] = json!(d);
+            o["file_offset_there"] = json!(start + d);
+            o["expected_there"] = json!(lossy_clip(shown, d));
+            o["printed_there"] = json!(lossy_clip(g, d));
+            o["printed_line_bytes"] = json!(g.len());
+            o["expected_line_bytes"] = json!(shown.len());
+        }
+        None => {
+            o["expected_start"] = json!(lossy_clip(shown, 0));
+            o["printed_there"] = json!("(nothing: the output ends before)");
+        }
+    }
+    o
+}
+
+fn big_input_case(ctx: &mut Ctx, ps: &mut Passes, bin: &str, dir: &str) {
+    let mut r = ctx.rng.fork();
+    let state = r.0;
+    let fam_sel = "filter-big-input-sel";
+    let fam_eq = "filter-big-input-stdin";
+    let fam_cnt = "filter-big-input-count";
+    let (t, query) = gen_big_filter(&mut r);
+    let tree = canon_t(&t);
+    // the filter has to mean what the generator intended (filter-ast judges that; not repeated here)
+    match imp::parse(&query) {
+        Ok((Some(p), _)) if canon_search(&p.search) == tree => {}
+        _ => {
+            ctx.case(fam_sel, "", "skip", json!({"why": "big-input: filter rejected or read differently (judged by filter-ast)"}));
+            return;
+        }
+    }
+    let mut kws = vec![];
+    c_keywords(&tree, &mut kws);
+    let (target, huge_max) = if ctx.thorough() {
+        match r.below(100) {
+            0..=24 => (9_000 + r.below(11_000), 0),
+            25..=59 => (20_000 + r.below(60_000), 0),
+            60..=86 => (80_000 + r.below(120_000), 120_000),
+            _ => (200_000 + r.below(1_800_000), 400_000),
+        }
+    } else {
+        match r.below(100) {
+            0..=29 => (9_000 + r.below(11_000), 0),
+            30..=69 => (20_000 + r.below(60_000), 0),
+            _ => (80_000 + r.below(120_000), 100_000),
+        }
+    };
+    let inp = gen_big_input(&mut r, &kws, target, huge_max);
+    let lines: Vec<String> = inp.bytes.split_inclusive(|b| *b == b'\n').map(|l| String::from_utf8_lossy(l).into_owned()).collect();
+    if lines.iter().any(|l| outside_oracle(l)) {
+        ctx.case(fam_sel, "", "skip", json!({"why": "big-input: cased non-ASCII letter in a line (the oracle is ASCII-case only)"}));
+        return;
+    }
+    let key = ckey(&query, &inp.bytes);
+    let path = format!("{}/input.log", dir);
+    if std::fs::write(&path, &inp.bytes).is_err() {
+        ctx.case(fam_sel, "", "skip", json!({"why": "cannot write the scratch file"}));
+        return;
+    }
+    let longest = lines.iter().map(|l| l.len()).max().unwrap_or(0);
+    let thorough = ctx.thorough();
+    let info = |extra: serde_json::Value| -> serde_json::Value {
+        json!({"query": query, "tree": show(&tree), "input_bytes": inp.bytes.len(), "input_lines": lines.len(), "longest_line_bytes": longest,
+            "valid_utf8": std::str::from_utf8(&inp.bytes).is_ok(), "final_newline": inp.bytes.last() == Some(&b'\n'),
+            "put_on_a_multiple_of_8192": inp.forced.iter().take(12).map(|f| format!("{} @ {}", f.0, f.1)).collect::<Vec<_>>(),
+            "regenerate": format!("gen_big_filter + gen_big_input from Rng({}), tier {}", state, if thorough { "thorough" } else { "quick" }),
+            "detail": extra})
+    };
+    let qc = format!("{} | count", query);
+    let count_by_file = r.chance(50);
+    let by_file = run_agrind(bin, &["--file", &path, "--", &query], None);
+    let by_stdin = run_agrind(bin, &["--", &query], Some(&path));
+    let counted = if count_by_file { run_agrind(bin, &["-o", "json", "--file", &path, "--", &qc], None) } else { run_agrind(bin, &["-o", "json", "--", &qc], Some(&path)) };
+    let _ = std::fs::remove_file(&path);
+    let (by_file, by_stdin, counted) = match (by_file, by_stdin, counted) {
+        (Some(a), Some(b), Some(c)) => (a, b, c),
+        _ => {
+            ctx.case(fam_sel, "", "skip", json!({"why": "cannot start the agrind binary"}));
+            return;
+        }
+    };
+    for (run, how) in [(&by_file, "--file P"), (&by_stdin, "< P"), (&counted, "| count")] {
+        if run.timed_out || run.code != Some(0) {
+            ctx.case(fam_sel, &key, "viol", json!({"class": "C02/crash", "what": format!("the binary {} ({})", if run.timed_out { "did not finish within 60 s and again within 180 s".to_string() } else { format!("exited with {:?}", run.code) }, how),
+                "stderr": clip(&String::from_utf8_lossy(&run.stderr)), "case": info(json!({}))}));
+            return;
+        }
+    }
+    for f in &inp.forced {
+        ctx.count(&format!("filter-big-input:on-a-boundary:{}", f.0));
+    }
+    if longest > READ_BUF {
+        ctx.count("filter-big-input:line-longer-than-8192");
+    }
+    if longest > 65536 {
+        ctx.count("filter-big-input:line-longer-than-65536");
+    }
+    // (1) the selected lines, byte for byte and in input order
+    let parse_out = |out: &[u8]| -> Option<Vec<Vec<u8>>> {
+        if out.is_empty() {
+            return Some(vec![]);
+        }
+        let body = out.strip_suffix(b"\n")?;
+        Some(body.split(|b| *b == b'\n').map(|l| l.to_vec()).collect())
+    };
+    let got_owned = match parse_out(&by_file.stdout) {
+        Some(g) => g,
+        None => {
+            ctx.case(fam_sel, &key, "viol", json!({"class": "C02/selected-lines-differ", "what": "output does not end with a newline", "case": info(json!({"output_end": lossy_clip(&by_file.stdout, by_file.stdout.len())}))}));
+            return;
+        }
+    };
+    let got: Vec<&[u8]> = got_owned.iter().map(|g| g.as_slice()).collect();
+    let al = align_selection(&tree, &lines, &got);
+    if al.ambiguous > 0 {
+        ctx.count("filter:line-terminator-dependent-case");
+    }
+    match &al.mismatch {
+        None => ps.pass(ctx, fam_sel, &key, || info(json!({"selected": got.len()}))),
+        Some(Mis::Missing { line, pos }) => {
+            let rep = line_report(&inp.bytes, *line, got.get(*pos));
+            ctx.case(fam_sel, &key, "viol", json!({"class": "C02/selected-lines-differ",
+                "what": format!("input line {} satisfies the filter and has to be printed as output line {} (under every reading of the terminator-dependent lines before it); what is printed there differs", line, pos),
+                "case": info(rep)}));
+        }
+        Some(Mis::Extra { pos }) => {
+            ctx.case(fam_sel, &key, "viol", json!({"class": "C02/selected-lines-differ",
+                "what": format!("output line {} (of {}) is no selected input line in input order", pos, got.len()),
+                "case": info(json!({"printed_there": got.get(*pos).map(|g| lossy_clip(g, 0)), "lines_selected": al.lo, "lines_selected_counting_terminator_dependent_ones": al.hi}))}));
+        }
+    }
+    // (2) `--file P` = `< P`
+    if by_file.stdout == by_stdin.stdout {
+        ps.pass(ctx, fam_eq, &key, || json!({"output_bytes": by_file.stdout.len()}));
+    } else {
+        let d = by_file.stdout.iter().zip(by_stdin.stdout.iter()).position(|(a, b)| a != b).unwrap_or(by_file.stdout.len().min(by_stdin.stdout.len()));
+        ctx.case(fam_eq, &key, "viol", json!({"class": "C02/file-differs-from-stdin", "what": "`--file P` and `< P` print different selections of the same bytes",
+            "case": info(json!({"first_difference_at_output_byte": d, "by_file": lossy_clip(&by_file.stdout, d), "by_stdin": lossy_clip(&by_stdin.stdout, d), "output_bytes": [by_file.stdout.len(), by_stdin.stdout.len()]}))}));
+    }
+    // (3) `| count`
+    match count_of(&counted.stdout) {
+        Some(n) if al.lo <= n && n <= al.hi => ps.pass(ctx, fam_cnt, &key, || json!({"count": n})),
+        other => ctx.case(fam_cnt, &key, "viol", json!({"class": "C02/count-differs", "what": format!("`<filter> | count` ({}) gives {:?}, the filter selects {} line(s){}", if count_by_file { "--file P" } else { "< P" }, other, al.lo,
+                if al.hi != al.lo { format!(" (up to {} counting terminator-dependent lines)", al.hi) } else { String::new() }),
+            "got": clip(&String::from_utf8_lossy(&counted.stdout)), "case": info(json!({}))})),
+    }
+}
+
+fn big_input_cases(ctx: &mut Ctx, ps: &mut Passes) {
+    let n = ctx.budget(32, 640);
+    let bin = match super::c15::ensure_binary() {
+        Ok(b) => b,
+        Err(e) => {
+            ctx.case("filter-big-input-sel", "", "skip", json!({"why": format!("agrind binary not available: {}", head(&e))}));
+            return;
+        }
+    };
+    let dir = format!("/verif/harness/target/scratch/c02-{}", std::process::id());
+    if std::fs::create_dir_all(&dir).is_err() {
+        ctx.case("filter-big-input-sel", "", "skip", json!({"why": "cannot create a scratch directory"}));
+        return;
+    }
+    for _ in 0..n {
+        big_input_case(ctx, ps, &bin, &dir);
+    }
+    let _ = std::fs::remove_dir_all(&dir);
+}
+
 pub fn check(ctx: &mut Ctx) {
     let mut ps = Passes::new();
     if ctx.shard == 0 {
@@ -1156,7 +2012,52 @@ pub fn check(ctx: &mut Ctx) {
     for _ in 0..n {
         e2e_case(ctx, &mut ps, true);
     }
+    // last: the families before it keep the cases they had before this one existed
+    big_input_cases(ctx, &mut ps);
     if ctx.thorough() {
         exhaustive(ctx, &mut ps);
+    }
+}
+
+#[cfg(test)]
+mod big_tests {
+    use super::*;
+    #[test]
+    fn big_generator() {
+        let mut top = Rng::new(12345);
+        let mut feats = std::collections::BTreeMap::new();
+        for case in 0..300 {
+            let mut r = top.fork();
+            let (t, q) = gen_big_filter(&mut r);
+            let tree = canon_t(&t);
+            let mut kws = vec![];
+            c_keywords(&tree, &mut kws);
+            let target = 9000 + r.below(100_000);
+            let inp = gen_big_input(&mut r, &kws, target, 100_000);
+            for f in &inp.forced {
+                assert!(f.1 % READ_BUF == 0, "case {} {:?}", case, f);
+                let b = &inp.bytes;
+                match f.0 {
+                    "newline first in a buffer" => assert!(b.get(f.1) == Some(&b'\n') || f.1 >= b.len(), "case {} {:?}", case, f),
+                    "first byte of a line first in a buffer" => assert!(b.get(f.1 - 1) == Some(&b'\n') || f.1 > b.len(), "case {} {:?}", case, f),
+                    "CR LF at / across the boundary" => assert!(b.get(f.1 - 1) == Some(&b'\n') || b.get(f.1) == Some(&b'\n') || b.get(f.1 + 1) == Some(&b'\n') || f.1 + 1 >= b.len(), "case {} {:?}", case, f),
+                    "end of file at the boundary" => assert!(f.1 + 1 >= b.len() && f.1 <= b.len() + 1, "case {} {:?} len {}", case, f, b.len()),
+                    _ => {}
+                }
+                if f.0 == "multi-byte character cut by the boundary" {
+                    assert!(b[f.1] & 0xC0 == 0x80, "case {} {:?}", case, f);
+                }
+                *feats.entry(f.0).or_insert(0usize) += 1;
+            }
+            for l in inp.bytes.split_inclusive(|b| *b == b'\n') {
+                let d = String::from_utf8_lossy(l);
+                if outside_oracle(&d) {
+                    let c: Vec<char> = d.chars().filter(|c| kwgen::nonascii_cased(*c) && !CASED_OK.contains(c)).collect();
+                    println!("case {} query {:?} kws {:?}: chars {:?} in {:?}", case, q, kws, c, &d.chars().take(80).collect::<String>());
+                    break;
+                }
+            }
+        }
+        println!("{:?}", feats);
     }
 }
